@@ -322,7 +322,7 @@ class C16(Check):
     # -- grammar stream ---------------------------------------------------------------------------
     def grammar_stream(self, ctx, im):
         rng = ctx.sub_rng('grammar')
-        n = ctx.n(1200, 40000)
+        n = ctx.n(3000, 40000)
         cases = []
         for i in range(n):
             ns = rng.choice(g.NSENVS)
@@ -447,13 +447,13 @@ class C16(Check):
     def malformed_stream(self, ctx, im):
         rng = ctx.sub_rng('malformed')
         cases = []
-        for _ in range(ctx.n(1500, 50000)):
+        for _ in range(ctx.n(3000, 50000)):
             ns = rng.choice(g.NSENVS)
             ast = g.gen_selector(rng, ns, max_compounds=3)
             text = g.render_selector(ast, g.Spelling(rng))
             toks = g.mutate(rng, im.tokenize(text), im.tokenize)
             cases.append({'kind': 'mutated', 'ns': ns, 'toks': toks})
-        for _ in range(ctx.n(1500, 50000)):
+        for _ in range(ctx.n(3000, 50000)):
             ns = rng.choice(g.NSENVS)
             cases.append({'kind': 'soup', 'ns': ns, 'toks': g.soup(rng, im.tokenize, ns)})
         for _ in range(ctx.n(800, 20000)):
@@ -496,7 +496,7 @@ class C16(Check):
     def list_stream(self, ctx, im):
         rng = ctx.sub_rng('lists')
         hist = []
-        for _ in range(ctx.n(500, 12000)):
+        for _ in range(ctx.n(1200, 12000)):
             ns = rng.choice(g.NSENVS)
             ops, meta = [], []
             for _ in range(rng.choice([1, 2, 3, 4, 5, 6, 8])):
